@@ -244,7 +244,14 @@ def compound_conditions(ctx):
         ctx.stats['terms_compared'] += len(got)
         ctx.check(got == want, cls.name + '.__call__', what, '%s.__call__ evaluates or reports its members differently: %s' % (cls.name, SB.diff(got, want)), f, f.node)
         # the aggregate itself, as a separate fact (the most important one)
-        aggs = [c for c in calls_where(f.node, lambda c: callee_text(c) in ('all', 'any'), include_lambda=False)]
+        # (the aggregate over the member RESULTS: the local that holds what the members answered - `stop` -, not the identity
+        # scan of the info='not' branch)
+        res_names = set(st.targets[0].id for st in stmts_of(f.node) if isinstance(st, ast.Assign) and len(st.targets) == 1 and isinstance(st.targets[0], ast.Name)
+                        and any(isinstance(c_, (ast.ListComp, ast.GeneratorExp, ast.DictComp)) and any(isinstance(g_.iter, ast.Name) and g_.iter.id == f.args()[0] for g_ in c_.generators)
+                                for c_ in ast.walk(st.value)))
+        res_names |= {'stop'}
+        aggs = [c for c in calls_where(f.node, lambda c: callee_text(c) in ('all', 'any'), include_lambda=False)
+                if any(isinstance(n_, ast.Name) and n_.id in res_names for n_ in ast.walk(c))]
         ctx.check(bool(aggs) and all(callee_text(c) == agg for c in aggs), cls.name + '.__call__#aggregate', 'result = %s(member results)' % agg,
                   '%s aggregates its members with %s' % (cls.name, sorted(set(callee_text(c) for c in aggs))), f, aggs[0] if aggs else f.node)
 
